@@ -669,6 +669,65 @@ func c15Signed(ctx *Ctx, i int, rng *rand.Rand) {
 // c15Withheld: a host reads the pool's own calls (vipnode_disconnect after a client ran out of
 // balance, vipnode_whitelist for a peer request) and never answers them.  Requests of other
 // nodes on other connections must keep being answered meanwhile.
+// c15HTTPHost: a full node sends its registration over plain HTTP (a request with no connection
+// behind it, so nothing to call it back on), with and without an explicit address, through both
+// the current and the legacy endpoint. Whether the pool refuses or accepts it, the pool goes on
+// serving: the next peer request of a client, and a low-balance cut-off, must not bring it down.
+func c15HTTPHost(ctx *Ctx, i int) {
+	ch := startC15Child(ctx)
+	defer ch.stop()
+	cli, err := dialRaw(ch.tcp)
+	if err != nil {
+		fatal("dial: %v", err)
+	}
+	other, _ := dialRaw(ch.tcp)
+	var mon, log []string
+	nonce := time.Now().UnixNano()
+	signed := func(name, method string, args ...interface{}) string {
+		nonce++
+		id := nodeIDOf(name)
+		sig, err := request.Sign(keyFor(name), method, id, nonce, args...)
+		if err != nil {
+			fatal("sign: %v", err)
+		}
+		b, _ := json.Marshal(append([]interface{}{sig, id, nonce}, args...))
+		return string(b)
+	}
+	for k, name := range []string{"h1", "h2", "h3"} {
+		uri := []string{"enode://" + nodeIDOf(name) + "@10.0.0.1:30303", "", "enode://" + nodeIDOf(name) + "@host.example:30303"}[k]
+		var body string
+		if k == 2 {
+			body = fmt.Sprintf(`{"jsonrpc":"2.0","id":1,"method":"vipnode_host","params":%s}`, signed(name, "vipnode_host", pool.HostRequest{Kind: "geth", NodeURI: uri}))
+		} else {
+			body = fmt.Sprintf(`{"jsonrpc":"2.0","id":1,"method":"vipnode_connect","params":%s}`, signed(name, "vipnode_connect",
+				pool.ConnectRequest{VipnodeVersion: "x", NodeInfo: ethnode.UserAgent{Kind: ethnode.Geth, IsFullNode: true}, NodeURI: uri}))
+		}
+		_, resp, herr := httpRPC(ch.httpP, body)
+		log = append(log, fmt.Sprintf("full node %s registers over HTTP (node_uri %q): %s %v", name, uri, strings.TrimSpace(resp), herr))
+	}
+	cli.send(fmt.Sprintf(`{"id":1,"method":"vipnode_connect","params":%s}`, signed("c1", "vipnode_connect", pool.ConnectRequest{VipnodeVersion: "x", NodeInfo: ethnode.UserAgent{Kind: ethnode.Geth}})))
+	cli.next(3 * time.Second)
+	for k, req := range []string{
+		fmt.Sprintf(`{"id":2,"method":"vipnode_peer","params":%s}`, signed("c1", "vipnode_peer", pool.PeerRequest{Num: 3, Kind: "geth"})),
+		fmt.Sprintf(`{"id":3,"method":"vipnode_peer","params":%s}`, signed("c1", "vipnode_peer", pool.PeerRequest{Num: 3})),
+		fmt.Sprintf(`{"id":4,"method":"vipnode_client","params":%s}`, signed("c1", "vipnode_client", pool.ClientRequest{Kind: "geth", NumHosts: 2})),
+	} {
+		cli.send(req)
+		m, rerr := cli.next(4 * time.Second)
+		log = append(log, fmt.Sprintf("client request %d: %s %v", k+1, m["error"], rerr))
+		time.Sleep(150 * time.Millisecond)
+		if !ch.alive() {
+			mon = append(mon, fmt.Sprintf("c15-process-died: full nodes had sent their registration over plain HTTP; the serving process exited when a client then asked for hosts (request %d): %s", k+1, panicLine(ch.stderr.String())))
+			break
+		}
+		if perr := probe(other, 10+k); perr != nil {
+			mon = append(mon, fmt.Sprintf("c15-other-connection-stalled: after a client's request for hosts (full nodes had registered over plain HTTP) another connection no longer answers: %v", perr))
+			break
+		}
+	}
+	ctx.Emit(Case{I: i, Kind: "http-full-node-then-peer", Desc: map[string]interface{}{"steps": log}, Monitor: mon})
+}
+
 func c15Withheld(ctx *Ctx, i int) {
 	ch := startC15Child(ctx, "VERIF_C15_MIN=0")
 	defer ch.stop()
@@ -875,6 +934,9 @@ func runC15(ctx *Ctx) {
 	}
 	if ctx.Want(cases + 33) {
 		contractCase(ctx, cases+33, ctx.Sub(cases+33), "many-accounts", "c15-")
+	}
+	if ctx.Want(cases + 34) {
+		c15HTTPHost(ctx, cases+34)
 	}
 	for c := 0; c < ctx.N(2, 20); c++ {
 		if ctx.Want(cases + 3 + c) {
